@@ -125,7 +125,8 @@ func literalFields(c *Ctx, v ssa.Value) map[string]ssa.Value {
 	ident := func(x ssa.Value) ssa.Value { return x }
 	switch x := v.(type) {
 	case *ssa.UnOp:
-		if al, ok := x.X.(*ssa.Alloc); ok && x.Op == token.MUL && strings.Contains(al.Comment, "complit") {
+		// a literal built in place, or a local variable that is only ever filled field by field and read as a whole
+		if al, ok := x.X.(*ssa.Alloc); ok && x.Op == token.MUL {
 			return fieldsOfAlloc(al, ident)
 		}
 	case *ssa.Call:
@@ -655,6 +656,9 @@ func ruleProvSign(c *Ctx, r *Rep) {
 		if lk, ok := fs.val().(*ssa.Lookup); ok && lk.Index == ssa.Value(algParam) {
 			okIdx = true
 		}
+		if fromTable(fs.val(), "oid") {
+			okIdx = true // the OID the algorithm table function answered for the alg parameter (table-argument obligation)
+		}
 		r.Check(okIdx, "inner-oid|"+fk, c.Pos(fs.st.Pos()), "inner algorithm = table[alg] for the same alg parameter", sprintf("%v", okIdx))
 		// guarded by Algorithm == nil (a manipulation preset is kept)
 		kept := false
@@ -829,6 +833,97 @@ func ruleProvKeyID(c *Ctx, r *Rep) {
 					return nil
 				}
 				return d
+			}
+			// the one-call form: sha1.Sum(bits) (an array, sliced) - in the constructor or in a helper func([]byte) []byte
+			oneCall := func(f *ssa.Function) *ssa.Call {
+				for _, ci := range callsIn(f) {
+					switch calleeFullName(ci) {
+					case "crypto/sha1.Sum", "crypto/sha256.Sum256", "crypto/sha256.Sum224", "crypto/sha512.Sum512", "crypto/sha512.Sum384", "crypto/md5.Sum":
+						if call, ok := ci.(*ssa.Call); ok {
+							return call
+						}
+					}
+				}
+				return nil
+			}
+			if find(fn) == nil {
+				var sumCall *ssa.Call
+				var input []string
+				if sc := oneCall(fn); sc != nil {
+					sumCall, input = sc, pv.Origins(sc.Call.Args[0])
+				} else {
+					for _, ci := range callsIn(fn) {
+						g := ci.Common().StaticCallee()
+						if g == nil || !c.InModule(g) || g.Blocks == nil || len(g.Params) != 1 {
+							continue
+						}
+						if sc := oneCall(g); sc != nil && sc.Call.Args[0] == ssa.Value(g.Params[0]) {
+							sumCall, input = sc, pv.Origins(ci.Common().Args[0])
+						}
+					}
+				}
+				if sumCall != nil {
+					n++
+					fk := c.FuncKey(fn)
+					hname := calleeFullName(sumCall)
+					r.Check(hname == "crypto/sha1.Sum", "keyid-hash|"+cs.name+"|"+fk, c.Pos(sumCall.Pos()), "SHA-1 (RFC 5280 4.2.1.2 method 1)", hname)
+					ok := len(input) == 1 && strings.HasPrefix(input[0], "P("+fk+".") && strings.HasSuffix(input[0], cs.wantSuffix)
+					r.Check(ok, "keyid-input|"+cs.name+"|"+fk, c.Pos(sumCall.Pos()), "hash input = <context>"+cs.wantSuffix, strings.Join(input, ","))
+					reaches := false
+					// the digest as a slice: sum := sha1.Sum(x); sum[:]
+					var digestSlice ssa.Value
+					for _, ref := range *sumCall.Referrers() {
+						if st, ok := ref.(*ssa.Store); ok && st.Val == ssa.Value(sumCall) {
+							if al, ok := st.Addr.(*ssa.Alloc); ok {
+								for _, r2 := range *al.Referrers() {
+									if sl, ok := r2.(*ssa.Slice); ok && sl.Low == nil && sl.High == nil {
+										digestSlice = sl
+									}
+								}
+							}
+						}
+					}
+					for _, ms := range marshalSitesOf(c, fn) {
+						mo := strings.Join(pv.Origins(ms.arg), ",")
+						if strings.Contains(mo, hname+"(") && !strings.Contains(mo, "+(") {
+							reaches = true
+						}
+						if digestSlice != nil && ms.arg == digestSlice {
+							reaches = true
+						}
+						// inside a literal: Marshal(T{KeyIdentifier: <digest>})
+						for _, fv := range literalFields(c, ms.arg) {
+							if digestSlice != nil && fv == digestSlice {
+								reaches = true
+							}
+							if call, ok := fv.(*ssa.Call); ok && digestSlice != nil && call.Call.StaticCallee() == sumCall.Parent() && sumCall.Parent() != fn {
+								all := true
+								for _, ret := range returnsOf(sumCall.Parent()) {
+									if retResults(ret)[0] != digestSlice {
+										all = false
+									}
+								}
+								if all {
+									reaches = true
+								}
+							}
+						}
+						// through the helper: it returns the slice, the constructor marshals the call
+						if call, ok := ms.arg.(*ssa.Call); ok && digestSlice != nil && call.Call.StaticCallee() == sumCall.Parent() {
+							all := true
+							for _, ret := range returnsOf(sumCall.Parent()) {
+								if retResults(ret)[0] != digestSlice {
+									all = false
+								}
+							}
+							if all {
+								reaches = true
+							}
+						}
+					}
+					r.Check(reaches, "keyid-value|"+cs.name+"|"+fk, c.FnPos(fn), "the marshalled identifier is the digest itself", sprintf("%v", reaches))
+					continue
+				}
 			}
 			d := find(fn)
 			if d != nil && d.write != nil && d.sum != nil {
